@@ -4,8 +4,9 @@ import Bandit.Proofs.C01
 # Every modelled AST check locates its finding relative to the visited node
 
 (`LocSel.ctx`, `.node` or `.kw`; only the file-level B613 reports at an absolute line), and every check
-except B608 / B703 decides position-blind.  Together: `CheckCovered` for the real check list, the
-hypothesis of `Props.C10.equivariant`.
+except B608 / B703 decides position-blind (those two are shown position-invariant in
+`Bandit.Proofs.PosInv`).  Together: `CheckCovered` for the real check list
+(`Props.C10.all_checks_covered`), the hypothesis of `Props.C10.equivariant`.
 -/
 set_option linter.unusedSimpArgs false
 namespace Bandit
@@ -83,6 +84,87 @@ theorem b507_rel : NoAbsF b507 := by unfold NoAbsF b507; noabs
 theorem b508_rel : NoAbsF b508 := by unfold NoAbsF b508; noabs
 theorem b509_rel : NoAbsF b509 := by unfold NoAbsF b509; noabs
 
+/-! ### crypto family: B324, B503, B505 -/
+
+theorem b324Hashlib_rel (T : CryptoTables) (c : CallView) (func : Str) :
+    ∀ p, b324Hashlib T c func = .ok (some p) → ∀ a b, p.loc ≠ .abs a b := by
+  intro p h a b hl
+  unfold b324Hashlib at h
+  simp only [bind, Except.bind, pure, Except.pure, throw, throwThe, MonadExceptOf.throw] at h
+  repeat' split at h
+  all_goals first | (cases h; cases hl) | (cases h) | skip
+theorem b324Crypt_rel (T : CryptoTables) (c : CallView) (func : Str) :
+    ∀ p, b324Crypt T c func = .ok (some p) → ∀ a b, p.loc ≠ .abs a b := by
+  intro p h a b hl
+  unfold b324Crypt at h
+  simp only [bind, Except.bind, pure, Except.pure, throw, throwThe, MonadExceptOf.throw] at h
+  repeat' split at h
+  all_goals first | (cases h; cases hl) | (cases h) | skip
+theorem b324_rel (T : CryptoTables) : NoAbsF (b324 T) := by
+  unfold NoAbsF b324
+  intro env p h a b hl
+  simp only [bind, Except.bind, pure, Except.pure, throw, throwThe, MonadExceptOf.throw] at h
+  repeat' split at h
+  all_goals first | exact b324Hashlib_rel _ _ _ p h a b hl | exact b324Crypt_rel _ _ _ p h a b hl | (cases h; cases hl) | (cases h) | skip
+
+
+theorem b503_go_rel (e : Env) (bad : CfgVal) : ∀ (l : List Node) (p : PRaw), b503.go e bad l = .ok (some p) → ∀ a b, p.loc ≠ .abs a b := by
+  intro l
+  induction l with
+  | nil => intro p h; cases h
+  | cons d rest ih =>
+    intro p h a b hl
+    unfold b503.go at h
+    simp only [bind, Except.bind, pure, Except.pure, throw, throwThe, MonadExceptOf.throw] at h
+    repeat' split at h
+    all_goals first | exact ih p h a b hl | (cases h; cases hl) | cases h
+theorem b503_rel (cfg : CfgVal) : NoAbsF (b503 cfg) := by
+  unfold NoAbsF b503
+  intro env p h a b hl
+  simp only [bind, Except.bind, pure, Except.pure, throw, throwThe, MonadExceptOf.throw] at h
+  repeat' split at h
+  all_goals first | exact b503_go_rel _ _ _ p h a b hl | cases h
+
+theorem classifyKeySize_rel (cfg : CfgVal) (kt : Str) (ks : PyVal) :
+    ∀ p, classifyKeySize cfg kt ks = .ok (some p) → ∀ a b, p.loc ≠ .abs a b := by
+  intro p h a b hl
+  unfold classifyKeySize at h
+  simp only [bind, Except.bind, pure, Except.pure, throw, throwThe, MonadExceptOf.throw] at h
+  repeat' split at h
+  all_goals first | (cases h; cases hl) | (cases h) | skip
+theorem b505Cio_rel (T : CryptoTables) (cfg : CfgVal) (e : Env) (c : CallView) :
+    ∀ p, b505Cio T cfg e c = .ok (some p) → ∀ a b, p.loc ≠ .abs a b := by
+  intro p h a b hl
+  unfold b505Cio at h
+  simp only [bind, Except.bind, pure, Except.pure, throw, throwThe, MonadExceptOf.throw] at h
+  repeat' split at h
+  all_goals first | exact classifyKeySize_rel _ _ _ p h a b hl | (cases h; cases hl) | (cases h) | skip
+theorem b505Pyc_rel (T : CryptoTables) (cfg : CfgVal) (e : Env) (c : CallView) :
+    ∀ p, b505Pyc T cfg e c = .ok (some p) → ∀ a b, p.loc ≠ .abs a b := by
+  intro p h a b hl
+  unfold b505Pyc at h
+  simp only [bind, Except.bind, pure, Except.pure, throw, throwThe, MonadExceptOf.throw] at h
+  repeat' split at h
+  all_goals first | exact classifyKeySize_rel _ _ _ p h a b hl | (cases h; cases hl) | (cases h) | skip
+theorem b505_rel (T : CryptoTables) (cfg : CfgVal) : NoAbsF (b505 T cfg) := by
+  unfold NoAbsF b505
+  intro env p h a b hl
+  simp only [bind, Except.bind, pure, Except.pure, throw, throwThe, MonadExceptOf.throw] at h
+  repeat' split at h
+  all_goals first | exact b505Pyc_rel _ _ _ _ p h a b hl | (cases h; rename_i h'; exact b505Cio_rel _ _ _ _ _ h' a b hl) | (cases h) | skip
+
+/-! ### injection family -/
+
+theorem b608_rel (T : InjTables) : NoAbsF (b608 T) := by unfold NoAbsF b608; noabs
+theorem b610_rel (T : InjTables) : NoAbsF (b610 T) := by unfold NoAbsF b610; noabs
+theorem b611_rel : NoAbsF b611 := by unfold NoAbsF b611; noabs
+theorem b701_rel : NoAbsF b701 := by unfold NoAbsF b701; noabs
+theorem b703_rel (T : InjTables) : NoAbsF (DjangoXss.b703 T) := by unfold NoAbsF DjangoXss.b703 DjangoXss.b703With; noabs
+theorem b704_rel (T : InjTables) (cfg : CfgVal) : NoAbsF (b704 T cfg) := by unfold NoAbsF b704; noabs
+theorem b506_rel : NoAbsF b506 := by unfold NoAbsF b506; noabs
+theorem b614_rel : NoAbsF b614 := by unfold NoAbsF b614; noabs
+theorem b202_rel : NoAbsF b202 := by unfold NoAbsF b202; noabs
+
 /-! ## From decision functions to checks -/
 
 theorem plugin_ok {id name : String} {kinds : List Str} {f : Env → M (Option PRaw)} (hf : NoAbsF f) :
@@ -140,5 +222,20 @@ theorem shellChecks_ok (cfg : ShellCfg) : ∀ c ∈ shellChecks cfg, CheckOK c :
   · exact plugin_ok (b606_rel _)
   · exact plugin_ok (b607_rel _)
   · exact plugin_ok (b609_rel _)
+
+theorem cryptoChecks_ok (T : CryptoTables) (pc : PluginCfg) : ∀ c ∈ cryptoChecks T pc, CheckOK c := by
+  intro c hc
+  simp only [cryptoChecks, List.mem_cons, List.mem_nil_iff, or_false] at hc
+  rcases hc with rfl | rfl | rfl | rfl | rfl | rfl | rfl | rfl | rfl | rfl
+  · exact plugin_ok (b113_rel _)
+  · exact plugin_ok (b324_rel _)
+  · exact plugin_ok (b501_rel _)
+  · exact plugin_ok (b502_rel _)
+  · exact plugin_ok (b503_rel _)
+  · exact plugin_ok b504_rel
+  · exact plugin_ok (b505_rel _ _)
+  · exact plugin_ok b507_rel
+  · exact plugin_ok b508_rel
+  · exact plugin_ok b509_rel
 
 end Bandit
